@@ -209,6 +209,7 @@ type Exchange struct {
 	closedReq       bool
 	ClosedReqStep   int // scheduler step at which the transport closed the request body (-1: never)
 	RespReturned    bool
+	ServeStart      time.Time // fake time at which ServeHTTP was entered
 	HandlerDoneStep int
 
 	// norace mirrors
@@ -486,6 +487,7 @@ func (e *Exchange) runHandler() {
 				e.mu.Unlock()
 			}
 		}()
+		e.ServeStart = time.Now()
 		c.Route.ServeHTTP(rw, sreq)
 	}()
 	e.finishHandler()
